@@ -225,6 +225,16 @@ func (p *Program) VerifyFunc(fi *FuncInfo) (res *FuncResult) {
 		e.entryParams[o] = v
 	}
 	e.initCallHistory(st, fi)
+	e.capObj = map[string]types.Object{}
+	for _, ca := range c.Calls {
+		if ca.Capture {
+			if t := p.CInfo.Types[ca.Clause.Expr].Type; t != nil {
+				o := e.newPseudo("cap_"+ca.Clause.Label, t)
+				e.capObj[ca.Clause.Label] = o
+				st.Vars[o] = e.S.Zero(e.S.SortOf(t))
+			}
+		}
+	}
 	e.old = st.Clone()
 	// requires
 	for _, r := range c.Requires {
